@@ -604,3 +604,10 @@ Theorem c19_round_half_away_refuted :
   exists m e, (e < 0)%Z /\ round_f (FDec m e) None = Ok (FInt 2) /\ half_away m e = 3%Z.
 Proof. exact round_half_away_refuted. Qed.
 Print Assumptions c19_round_half_away_refuted.
+
+(** The shortcut of [round: -n] for a digit count above the bit length of an
+    integer (it answers 0 without computing 10^n) is what the general rule gives. *)
+Theorem c19_round_huge_negative_digits : forall z n,
+  (bit_length z < - n)%Z -> round_to_mult z (10 ^ (- n)) (10 ^ (- n)) = 0%Z.
+Proof. exact round_huge_negative_digits. Qed.
+Print Assumptions c19_round_huge_negative_digits.
